@@ -41,6 +41,8 @@ def run(body, *args):
     Only `Exception` is caught: CrossHair steers with BaseException subclasses.
     """
     ctx.PATHS += 1
+    from xv import lru
+    lru.reset()
     try:
         ok, cls = body(*args)
     except Exception as e:  # an unexpected exception out of real code or the harness
